@@ -12,7 +12,7 @@ from ..rules import sig
 from ..rules.selfattrs import SelfAttrs
 from .. import sym
 
-TECHNIQUE = "R-SIB pairing completeness over the class table, R-REG registry/constructor conformance, R-SIGN accumulation discipline of every elementary-map Jacobian on the CFG, computer-algebra identities on the extracted formulas (reported log-J vs. logarithmic derivative of the map formula; inverse(forward(x)) = x; forward/inverse negation), R-SIB mirror order, R-ORDER non-sampling fields, R-WRITERS update/reset completeness; guard dominance on the auxiliary-radius gate; R-NORM; path summaries feeding the computer-algebra Jacobian check of the inverse polar / spherical maps; predicate agreement for the prime-prior bounds (C07.11)"
+TECHNIQUE = "R-SIB pairing completeness over the class table, R-REG registry/constructor conformance, R-SIGN accumulation discipline of every elementary-map Jacobian on the CFG, computer-algebra identities on the extracted formulas (reported log-J vs. logarithmic derivative of the map formula; inverse(forward(x)) = x; forward/inverse negation), R-SIB mirror order, R-ORDER non-sampling fields, R-WRITERS update/reset completeness; guard dominance on the auxiliary-radius gate; R-NORM; path summaries feeding the computer-algebra Jacobian check of the inverse polar / spherical maps; predicate agreement for the prime-prior bounds (C07.11); configuration enumeration of determine_rescaled_bounds with guard folding and computer algebra (C07.12)"
 
 REP = "nessai.reparameterisations"
 BASE = REP + ".base:Reparameterisation"
